@@ -107,6 +107,9 @@ int RePair::expandRuleAndCompareString(uint rule, uchar *str, uint *pos) {
 }
 
 int RePair::extractStringAndCompareRP(uint id, uchar *str, uint strLen) {
+  // The byte that follows the pattern is borrowed for the sentinel and given
+  // back before leaving (it is not necessarily a terminator)
+  uchar borrowed = str[strLen];
   str[strLen] = maxchar;
 
   uint l = 0, pos = 0, next;
@@ -131,7 +134,7 @@ int RePair::extractStringAndCompareRP(uint id, uchar *str, uint strLen) {
     l++;
   }
 
-  str[strLen] = 0;
+  str[strLen] = borrowed;
 
   return cmp;
 }
